@@ -223,7 +223,7 @@ func searchShapeJobs(tier string) []Job {
 func init() {
 	propMeta["C04"] = PropMeta{
 		Bounds: map[string]interface{}{
-			"quick":    "L-num: ALL uint32 values and counts (bit-vectors); L-quad: ALL finite doubles with midpoints unconstrained; Search==filter with nondeterministic stop and ANY non-NaN query rectangle (infinities included): series of 0..8 points, open / closed / closed with repeated point, no index and single-node compressed R-tree and quadtree (real constants), threshold below/at/above; moved series n = 4; multi-node trees with node constants scaled down by a source overlay regenerated from the current qtree.go/rtree.go: quadtree (2 items, depth 2) on 3..4 points, every tree shape; R-tree (2 entries) on 3..4 points; a concrete 40-point line moved by 2^52 / 2^51 / 8 (rounding additions, IEEE arithmetic on constants); concrete 40..300-point layouts with the real node constants (R-tree of height 2, quadtree depth-limit buckets) under every query rectangle, also with a nondeterministic stop at every segment",
+			"quick":    "L-num: ALL uint32 values and counts (bit-vectors); L-quad: ALL finite doubles with midpoints unconstrained; Search==filter with nondeterministic stop and ANY non-NaN query rectangle (infinities included): series of 0..8 points, open / closed / closed with repeated point, no index and single-node compressed R-tree and quadtree (real constants), threshold below/at/above; moved series n = 4; multi-node trees with node constants scaled down by a source overlay regenerated from the current qtree.go/rtree.go: quadtree (2 items, depth 2) on 3..4 points, every tree shape; R-tree (2 entries) on 3..4 points; a concrete 40-point line moved by 2^52 / 2^51 / 8 (rounding additions, IEEE arithmetic on constants); concrete 40..300-point layouts with the real node constants (R-tree of height 2, quadtree depth-limit buckets, a comb on non-dyadic coordinates 0.1*k whose midpoints round: IEEE arithmetic on constants) under every query rectangle, also with a nondeterministic stop at every segment",
 			"thorough": "series up to 16 points (R-tree) / 32 (quadtree) single node; quadtree shapes on 5 points",
 		},
 		Outside:     []string{"multi-node trees with the real constants (more than 32 / 16 segments) symbolically: covered only through the scaled-constant configurations", "4-byte item encodings (> 65535 segments): covered by L-num only", "order-independence of the predicates under permuted report order (not built)"},
@@ -271,7 +271,7 @@ func init() {
 		}
 		// the full search contract (exactly-once, index, nondeterministic stop at every segment) on concrete layouts with
 		// the real constants: R-tree of height 2 (300 segments), quadtrees with depth-limit buckets and inner items
-		for _, t := range [][3]int{{2, 300, 1}, {3, 100, 1}, {2, 257, 2}, {1, 300, 2}, {0, 40, 2}} {
+		for _, t := range [][3]int{{2, 300, 1}, {3, 100, 1}, {2, 257, 2}, {1, 300, 2}, {0, 40, 2}, {4, 66, 2}, {4, 66, 1}} {
 			out = append(out, Job{Pkg: "geometry", Harness: "H_Search_Template", Params: []int{t[0], t[1], t[2], 1}, Timeout: 120, Unwind: 600, Combine: true, NoCover: t[1] != 300 || t[2] != 1,
 				Note: "S-template with stops: concrete layout, real node constants, every query rectangle, stop allowed at every segment"})
 		}
@@ -441,6 +441,22 @@ func apiJobs(tier string) []Job {
 			out = append(out, Job{Pkg: "geometry", Harness: "H_API_PolyPoly", Params: params, Timeout: 120, Scale: true, Contracts: c, NoCover: true})
 		}
 	}
+	// a convex outer ring that does not fill its bounding box (big triangle, diamond) against small inner shapes: the
+	// inner box fits into the outer box while single inner vertices stick out; closed and unclosed encodings
+	bigTri := []ipt{{0, 0}, {8, 0}, {0, 8}}
+	diamond4 := []ipt{{2, 0}, {4, 2}, {2, 4}, {0, 2}}
+	smallTri := []ipt{{0, 0}, {1, 0}, {0, 1}}
+	for _, pr := range [][2][]ipt{{bigTri, smallTri}, {bigTri, sq1}, {diamond4, sq1}, {diamond4, smallTri}} {
+		for _, kind := range []int{0, 9} {
+			params := append(append([]int{kind}, ringParams(pr[0])...), ringParams(pr[1])...)
+			out = append(out, Job{Pkg: "geometry", Harness: "H_API_PolyPoly", Params: params, Timeout: 120, Scale: true, Contracts: c, NoCover: true})
+		}
+	}
+	// both rings given without their repeated closing vertex
+	for _, pr := range [][2][]ipt{{tri, tri}, {curatedRings[0], tri}, {tri, sq1}, {big4, sq1}} {
+		params := append(append([]int{9}, ringParams(pr[0])...), ringParams(pr[1])...)
+		out = append(out, Job{Pkg: "geometry", Harness: "H_API_PolyPoly", Params: params, Timeout: 120, Scale: true, Contracts: c, NoCover: true})
+	}
 	// an indexed polygon against a rectangle large enough to contain it
 	for _, kind := range []int{1, 2} {
 		params := append([]int{kind, 4, 4}, ringParams(sq1)...)
@@ -476,6 +492,9 @@ func apiJobs(tier string) []Job {
 	}
 	out = append(out, Job{Pkg: "geometry", Harness: "H_API_RectLine", Params: []int{2, 2, 1}, Timeout: 120, Scale: true, Contracts: c})
 	out = append(out, Job{Pkg: "geometry", Harness: "H_API_RectLine", Params: []int{3, 2, 1}, Timeout: 120, Scale: true, Contracts: c, NoCover: true})
+	for _, mwh := range [][3]int{{2, 2, 0}, {2, 0, 2}, {3, 2, 0}, {3, 0, 2}, {2, 0, 0}} { // flat and point rectangles: Line.ContainsRect
+		out = append(out, Job{Pkg: "geometry", Harness: "H_API_RectLine", Params: []int{mwh[0], mwh[1], mwh[2]}, Timeout: 120, Scale: true, Contracts: c, NoCover: true})
+	}
 	for _, mk := range [][3]int{{2, 2, 0}, {3, 2, 0}, {2, 3, 0}, {3, 3, 0}, {3, 2, 1}, {3, 2, 2}} {
 		out = append(out, Job{Pkg: "geometry", Harness: "H_API_LineLine", Params: []int{mk[0], mk[1], mk[2]}, Timeout: 120, Scale: true, Contracts: []string{fnRaycast, fnSegSeg}, NoCover: mk[0]+mk[1] > 4})
 	}
@@ -674,6 +693,8 @@ func init() {
 			add(3, 2, 0, dims, -1, 0, 0) // empty polygon
 			add(3, 0, 0, 0, -1, 1, 1)
 			add(3, 3, -1, dims, -1, 1, 1) // hole with no positions
+			add(3, 1, 3, dims, -1, 0, 0)  // empty exterior (two equal positions) with a proper hole
+			add(3, 0, 3, dims, -1, 1, 2)  // no exterior positions at all, with a hole
 			add(2, 0, 0, dims, -1, 0, 1)  // line with no positions
 			add(2, 1, 0, dims, 0, 2, 0)   // line with one position
 			add(6, 0, 0, dims, -1, 0, 0)  // feature wrapping an empty line
@@ -728,7 +749,7 @@ func init() {
 func matrixJobs(freeze int, full bool) []Job {
 	var out []Job
 	c := []string{fnRaycast, fnSegSeg}
-	n := 28
+	n := 30
 	inSet := func(x int, s ...int) bool {
 		for _, v := range s {
 			if v == x {
@@ -739,7 +760,13 @@ func matrixJobs(freeze int, full bool) []Job {
 	}
 	for a := 0; a < n; a++ {
 		for b := 0; b < n; b++ {
-			if a >= 26 || b >= 26 {
+			if a >= 28 || b >= 28 {
+				// 28: FeatureCollection with non-Feature children; 29: GeometryCollection with its child index built
+				ok := a >= 28 && inSet(b, 0, 3, 7, 8, 9, 10, 19, 23, 28, 29) || b >= 28 && inSet(a, 0, 1, 7, 8, 9, 10, 19, 20, 23)
+				if !ok {
+					continue
+				}
+			} else if a >= 26 || b >= 26 {
 				// concrete concave indexed polygons (26 quadtree, 27 R-tree + hole): against the partners that reach
 				// the ring-in-ring / segment-in-ring case analysis
 				ok := a == 26 && inSet(b, 0, 1, 3, 4, 7, 8, 19, 21, 26, 27) || a == 27 && inSet(b, 0, 4, 19, 21, 26) ||
@@ -751,7 +778,7 @@ func matrixJobs(freeze int, full bool) []Job {
 				continue // member-carrying variants: only against a few partners
 			}
 			// the heavy pairs (indexed shapes, circles against polygons) are sampled on the diagonal band unless full
-			heavy := (a >= 20 || a == 10 || a == 9) && (b >= 20 || b == 7 || b == 10 || b == 19)
+			heavy := (a >= 20 || a == 10 || a == 9) && (b >= 20 || b == 7 || b == 10 || b == 19) && a < 26 && b < 26
 			if heavy && !full && (a+b)%3 != 0 {
 				continue
 			}
@@ -764,7 +791,7 @@ func matrixJobs(freeze int, full bool) []Job {
 func init() {
 	propMeta["C05"] = PropMeta{
 		Bounds: map[string]interface{}{
-			"quick":    "every query method (Empty, Valid, Rect, Center, NumPoints, Members, Spatial, ForEach, Contains, Within, Intersects, Distance, the Spatial sub-interface, JSON/String/AppendJSON for non-Multi kinds, Children/Indexed/Search for collections; at the geometry level every predicate with nil *Line / *Poly receivers and arguments, and Poly.Move with holes / Rect rings) on all ordered pairs of 24 constructor-built variants (12 kinds incl. degenerate ones: zero/one-point lines, zero-length segments, NewPolygon(nil), two-point polygon, zero-area rect, zero-radius circle, empty and nil-child collections, nested features, indexed polygon with hole / line / multipolygon, and two concrete concave (L-shaped) indexed polygons against the point / line / polygon / rect variants) with ALL real coordinates: no reachable panic (bounds, nil, type assertion) and every loop leaves within its unwinding bound (unwinding assertions); segment-index construction and search on concrete layouts of 40..300 points incl. ties and duplicates (real R-tree / quadtree constants); Line.ContainsLine on concrete lines x ALL symbolic lines",
+			"quick":    "every query method (Empty, Valid, Rect, Center, NumPoints, Members, Spatial, ForEach, Contains, Within, Intersects, Distance, the Spatial sub-interface, JSON/String/AppendJSON for non-Multi kinds, Children/Indexed/Search for collections; at the geometry level every predicate with nil *Line / *Poly receivers and arguments, and Poly.Move with holes / Rect rings) on all ordered pairs of 24 constructor-built variants (12 kinds incl. degenerate ones: zero/one-point lines, zero-length segments, NewPolygon(nil), two-point polygon, zero-area rect, zero-radius circle, empty and nil-child collections, nested features, indexed polygon with hole / line / multipolygon, two concrete concave (L-shaped) indexed polygons, a FeatureCollection whose children are not all Features and a GeometryCollection with its child index built, against the point / line / polygon / rect / circle variants) with ALL real coordinates: no reachable panic (bounds, nil, type assertion) and every loop leaves within its unwinding bound (unwinding assertions); segment-index construction and search on concrete layouts of 40..300 points incl. ties and duplicates (real R-tree / quadtree constants); Line.ContainsLine on concrete lines x ALL symbolic lines",
 			"thorough": "all 576 pairs (quick samples a third of the heaviest indexed/circle pairs)",
 		},
 		Outside:     []string{"Parse on arbitrary bytes and JSON of member text (gjson / pretty / sjson / strconv are not encoded)", "geo.* libm calls are assumed total", "polynomial running time is argued from the unwinding bounds, not measured", "objects larger than the listed variants"},
